@@ -213,6 +213,32 @@ def run(m: Model, r: Report, tier: str) -> None:
                         f"the assertion `{ast.unparse(t)}` does not state the invariant established above (session in supported_services): it fails on every request "
                         "and the connection is dropped", loc=f"{f.module.relpath}:{n.lineno}")
 
+    # a responder never indexes request bytes it has not been shown to have: request.pdu[k] (k >= 1) only under the sub-function
+    # applicability test (one-byte requests of sub-function services were answered by the missing-sub-function rule before) or a length test
+    from sa.util import path_condition
+    n_idx = 0
+    for cname in ("UDSServer", "RandomUDSServer", "DBUDSServer", "UDSServerTransport"):
+        for f in m.require_class(f"{SRV}.{cname}").methods.values():
+            for st in ast.walk(f.node):
+                if not isinstance(st, ast.stmt):
+                    continue
+                subs = [x for x in ast.iter_child_nodes(st)] if False else []
+            for n in ast.walk(f.node):
+                if isinstance(n, ast.Subscript) and isinstance(n.value, ast.Attribute) and n.value.attr == "pdu" and isinstance(n.value.value, ast.Name) and n.value.value.id in ("request", "req"):
+                    k_ = m.try_fold(f.module, n.slice) if not isinstance(n.slice, ast.Slice) else None
+                    if not isinstance(k_, int) or k_ < 1:
+                        continue
+                    n_idx += 1
+                    owner = next(s_ for s_ in ast.walk(f.node) if isinstance(s_, ast.stmt) and not isinstance(s_, (ast.FunctionDef, ast.AsyncFunctionDef, ast.If, ast.For, ast.While, ast.Try, ast.With))
+                                 and any(x is n for x in ast.walk(s_)))
+                    conds = path_condition(f.node, owner)
+                    guarded = any(pol and ("_is_sub_function_request(" in ast.unparse(t) or f"len({n.value.value.id}.pdu)" in ast.unparse(t)) for t, pol in conds)
+                    r.check(guarded, "R5", f"{f.qualname}#request.pdu[{k_}]",
+                            f"request.pdu[{k_}] is read without a preceding applicability / length test: a shorter request (e.g. the bare service id) raises IndexError, "
+                            "the server loop drops the connection", loc=f"{f.module.relpath}:{n.lineno}")
+    if n_idx < 1:
+        raise AnalysisError("no request.pdu[k] access found in the server responders (expected the sub-function lookup)")
+
     # ---------------------------------------------------------------- R8
     from sa import miniterp
     rp = m.require_function(f"{SRV}.RNG.random_payload")
